@@ -407,7 +407,124 @@ func (s *c08Sys) Step(hist []c08Ev) (string, core.Verdict) {
 	return c08Key(ts), core.Pass()
 }
 
+// c08OpTable: for EVERY differentiable operation (each has its own copy of the
+// tracking prelude in gradtrack) and every combination of operand states
+// {fresh tracked, fresh untracked, spent tracked, untracked result of a spent
+// tensor}, the result is tracked iff some operand is tracked and none is spent,
+// and spent iff some operand is spent; forward values never depend on it.
+func c08OpTable(c *core.Ctx) {
+	states := []string{"T", "U", "S", "D"}
+	mkState := func(x *ref.T, st string) tensor.Tensor {
+		switch st {
+		case "T":
+			return rt.Make(x, true)
+		case "U":
+			return rt.Make(x, false)
+		case "S": // tracked leaf that took part in a back-propagation
+			t := rt.Make(x, true)
+			if err := tensor.BackPropagate(t.Scale(1)); err != nil {
+				panic("HARNESS: " + err.Error())
+			}
+			return t
+		}
+		// "D": untracked result computed from a spent tensor (same values)
+		t := rt.Make(x, true)
+		if err := tensor.BackPropagate(t.Scale(1)); err != nil {
+			panic("HARNESS: " + err.Error())
+		}
+		return t.Scale(1)
+	}
+	opts := opCaseOpts{shapes: [][]int{{2}, {2, 2}, {1, 2, 2}}, maxIndexRank: 1, concatSizes: []int{1}, concat3: true}
+	seen := map[string]bool{}
+	forEachOpCase(opts, func(oc OpCase) {
+		// one representative configuration per (operation kind, arity) is enough here
+		key := fmt.Sprintf("%s/%d", oc.Op.K, len(oc.In))
+		if seen[key] {
+			return
+		}
+		seen[key] = true
+		n := len(oc.In)
+		total := 1
+		for i := 0; i < n; i++ {
+			total *= len(states)
+		}
+		for code := 0; code < total; code++ {
+			code := code
+			c.Case(fmt.Sprintf("optable/%s/%d", oc.ID(), code), true, func() core.Verdict {
+				in := genInputs(oc.Op, oc.In, 61)
+				rin := make([]tensor.Tensor, n)
+				anyTracked, anySpent := false, false
+				x := code
+				desc := ""
+				for i := 0; i < n; i++ {
+					st := states[x%len(states)]
+					x /= len(states)
+					desc += st
+					rin[i] = mkState(in[i], st)
+					anyTracked = anyTracked || st == "T" || st == "S"
+					anySpent = anySpent || st == "S" || st == "D"
+				}
+				y, err := rt.Apply(oc.Op, rin)
+				if err != nil {
+					return core.Fail("%s with operand states %s: %v", oc.ID(), desc, err)
+				}
+				exp, _ := ref.Eval(oc.Op, in)
+				if ok, msg := core.Close(rt.Read(y), exp, scaleOf(append(in, exp)...)); !ok {
+					return core.Fail("%s with operand states %s: forward value depends on tracking: %s", oc.ID(), desc, msg)
+				}
+				tr, dirty, g, _, _ := tensor.VerifGradState(y)
+				wantTr := anyTracked && !anySpent
+				if tr != wantTr || dirty != anySpent || g != nil {
+					return core.Fail("%s with operand states %s (T tracked, U untracked, S spent, D derived from spent): result tracked=%v spent=%v hasGradient=%v, expected tracked=%v spent=%v no gradient", oc.ID(), desc, tr, dirty, g != nil, wantTr, anySpent)
+				}
+				// behavioural: back-propagating the result reaches exactly the fresh tracked operands
+				before := make([]tensor.Tensor, n)
+				for i := range rin {
+					before[i] = rin[i].Gradient()
+				}
+				if err := tensor.BackPropagate(y); err != nil {
+					return core.Fail("%s with operand states %s: BackPropagate: %v", oc.ID(), desc, err)
+				}
+				x = code
+				for i := 0; i < n; i++ {
+					st := states[x%len(states)]
+					x /= len(states)
+					changed := rin[i].Gradient() != before[i]
+					want := wantTr && st == "T"
+					if changed != want {
+						return core.Fail("%s with operand states %s: operand %d (%s) gradient assigned=%v, expected %v", oc.ID(), desc, i, st, changed, want)
+					}
+				}
+				return core.Pass()
+			})
+		}
+	})
+	// comparisons: always untracked and fresh
+	for _, k := range ref.CompareKinds {
+		for code := 0; code < 16; code++ {
+			k, code := k, code
+			c.Case(fmt.Sprintf("optable/%s/%d", k, code), true, func() core.Verdict {
+				in := genInputs(ref.Op{K: k}, [][]int{{2, 2}, {2, 2}}, 62)
+				a, b := mkState(in[0], states[code%4]), mkState(in[1], states[code/4])
+				y, err := rt.Apply(ref.Op{K: k}, []tensor.Tensor{a, b})
+				if err != nil {
+					return core.Fail("%s: %v", k, err)
+				}
+				tr, _, g, targets, _ := tensor.VerifGradState(y)
+				if tr || g != nil || len(targets) != 0 {
+					return core.Fail("%s of operands in states %s%s: comparison result tracked=%v", k, states[code%4], states[code/4], tr)
+				}
+				if err := tensor.BackPropagate(y); err != nil || y.Gradient() != nil {
+					return core.Fail("%s: BackPropagate from a comparison result changed something (err=%v)", k, err)
+				}
+				return core.Pass()
+			})
+		}
+	}
+}
+
 func checkC08(c *core.Ctx) {
+	c08OpTable(c)
 	type bound struct{ pool, depth int }
 	bounds := []bound{{5, 5}}
 	if c.Thorough() {
